@@ -10,7 +10,7 @@ enum { SH_DEFAULT, SH_DOTSUFFIX, SH_NOSUFFIX_NULL, SH_NOSUFFIX_EMPTY, SH_NOPROJE
 static const char *SHN[SH_N] = { "default", "dot-suffix", "suffix-NULL", "suffix-empty", "project-NULL", "PARSING_DIRS-2", "PARSING_DIRS-3",
   "PARSING_DIRS-4", "CONFIG_DIRS", "econf_set_conf_dirs", "dropins-only(name NULL)", "dropins-only(name \"\")", "refuse-NULL-NULL", "no-ROOT_PREFIX", "default/dot-file-names", "CONFIG_DIRS + econf_set_conf_dirs (object list wins)" };
 /* second name universe for the default shape: a dot file, dictionary-vs-byte order, the bare suffix, a name that only contains the suffix */
-static const char *UNI2[T_MAXU] = { ".h.conf", "README", "a.conf", "B.conf", ".conf", "x.conf.bak", ".conf.h" };
+static const char *UNI2[T_MAXU] = { ".h.conf", "README", "x.conf.bak", "a.conf", ".conf", "B.conf", ".conf.h" };   /* x.conf.bak: the suffix occurs, but not at the end */
 static const char *UNI[T_MAXU] = { "10-a.conf", "9-b.conf", "B.conf", "a.conf", "README", ".h.conf", ".conf", "x.conf.bak" };
 
 static int u_big = 5, u_small = 2;
